@@ -198,6 +198,7 @@ let () =
             | "ra" -> ra_case f
             | "mqx" -> Explore.mqx_case f
             | "mqr" -> Explore.mqr_case f
+            | "tpr" -> Explore.tpr_case f
             | "tpx" -> Explore.tpx_case f
             | "tp" -> Explore.tpx_case [| "tpx"; (if Array.exists (fun x -> x = "cfg=a") f then "a" else "f"); f.(1) |]
             | "bs" -> Explore.bs_case f
